@@ -127,13 +127,13 @@ def _db_next(ex, args, kwargs, e):
 W.externs['dawgie.db.next'] = Extern(fn=_db_next)
 
 
-@contract(W, 'dawgie/pl/farm.py', 'Hand._res', props=['C03', 'C05'])
-class hand_res_stub(ContractBase):
-    """frame only (what _process needs); the behaviour of _res is specified in c03_farm.py"""
-    params = {'msg': MSG}
-    modifies = ['Node.todo', 'Node.doing', 'Node.do', 'Node.status', 'Node.runid', 'Node.event', 'dawgie.pl.schedule.que',
-                'dawgie.pl.farm._busy']
-    stub = True
+RES_MODIFIES = ['Node.todo', 'Node.doing', 'Node.do', 'Node.status', 'Node.runid', 'Node.event', 'dawgie.pl.schedule.que',
+                'dawgie.pl.farm._busy', 'dawgie.pl.farm._time', 'dawgie.pl.farm.ARCHIVE', 'ghost.chronicle', 'ghost.update_calls',
+                'dawgie.pl.schedule.err', 'dawgie.pl.schedule.suc']
+
+
+class hand_res_stub:
+    modifies = RES_MODIFIES
 
 
 @contract(W, 'dawgie/pl/farm.py', 'Hand._process', props=['C11'])
